@@ -171,6 +171,7 @@ type lhGen struct {
 	u     int64
 	alive []map[int]map[string]bool // per lib, per kb: name -> alive (false = removed)
 	imgs  []int                      // kb index of each stored image
+	last  map[string]hsim.MRule      // "lib/kb/name" -> the rule as it was last built (for token-identical duplicates)
 }
 
 func (g *lhGen) state(lib, kb int) map[string]bool {
@@ -346,7 +347,7 @@ func malform(r *core.Rand, rules []hsim.MRule) (string, string, bool) {
 
 func lhScenario(prop string, seed uint64) *core.Scenario {
 	r := core.NewRand(core.Mix(seed, core.HashStr(prop)))
-	g := &lhGen{r: r}
+	g := &lhGen{r: r, last: map[string]hsim.MRule{}}
 	ex := &hsim.LExtra{KBs: [][2]string{{"KB", "1"}, {"KB", "2"}, {"Other", "1"}}[:r.Range(1, 3)]}
 	n := r.Range(4, 12)
 	libs := 1
@@ -366,7 +367,11 @@ func lhScenario(prop string, seed uint64) *core.Scenario {
 			for j := 0; j < nr; j++ {
 				kind := []int{0, 0, 1, 2}[r.Intn(4)]
 				name := g.pickName(st, kind)
-				op.Rules = append(op.Rules, g.rule(name))
+				rl := g.rule(name)
+				if prev, ok := g.last[fmt.Sprintf("%d/%d/%s", lib, kb, name)]; ok && st[name] && r.Chance(1, 3) {
+					rl = prev // the very same text again: still a duplicate name
+				}
+				op.Rules = append(op.Rules, rl)
 				used[name] = true
 			}
 			dup := false
@@ -380,6 +385,7 @@ func lhScenario(prop string, seed uint64) *core.Scenario {
 			if !dup {
 				for _, rl := range op.Rules {
 					st[rl.Name] = true
+					g.last[fmt.Sprintf("%d/%d/%s", lib, kb, rl.Name)] = rl
 				}
 			}
 			if prop == "C17" && r.Chance(2, 3) {
